@@ -151,6 +151,15 @@ def make_history(rng, sched, cancel):
     if sets and rng.random() < 0.6:
         tail.append(rng.choice(sets))
     key = L[i].split(" ")[1]
+    allkeys = [l.split(" ")[1] for l in L if l.startswith("rule")]
+    # sometimes a DIFFERENT key is built first after the cancellation (in a new process: without loading what the cancelled build touched),
+    # then the database is re-opened again and builds are repeated
+    if rng.random() < 0.5:
+        tail.append("build %s" % rng.choice(allkeys))
+        if L[0] == "db 1" and rng.random() < 0.6:
+            tail.append("restart")
+        if rng.random() < 0.5:
+            tail.append(tail[-1] if tail[-1].startswith("build") else "build %s" % rng.choice(allkeys))
     tail.append("build %s" % key)
     L = L[:i + 1] + tail + L[i + 1:]
     return K.with_fresh(L)
